@@ -13,6 +13,8 @@
 #include <unordered_map>
 
 #ifndef CHAISCRIPT_NO_THREADS
+#include <atomic>
+#include <cstdint>
 #include <mutex>
 #include <shared_mutex>
 #include <thread>
@@ -64,23 +66,33 @@ namespace chaiscript::detail::threading {
     Thread_Storage &operator=(const Thread_Storage &) = delete;
     Thread_Storage &operator=(Thread_Storage &&) = delete;
 
-    ~Thread_Storage() { t().erase(this); }
+    ~Thread_Storage() { t().erase(m_id); }
 
-    inline const T *operator->() const noexcept { return &(t()[this]); }
+    inline const T *operator->() const noexcept { return &(t()[m_id]); }
 
-    inline const T &operator*() const noexcept { return t()[this]; }
+    inline const T &operator*() const noexcept { return t()[m_id]; }
 
-    inline T *operator->() noexcept { return &(t()[this]); }
+    inline T *operator->() noexcept { return &(t()[m_id]); }
 
-    inline T &operator*() noexcept { return t()[this]; }
+    inline T &operator*() noexcept { return t()[m_id]; }
 
     void *m_key;
 
   private:
+    /// Per-thread data is keyed by an id that is never reused: keyed by the address of this
+    /// object, a later Thread_Storage constructed at the same address would inherit the entries
+    /// that threads other than the destroying one still hold for the dead object.
+    static std::uint64_t next_id() noexcept {
+      static std::atomic<std::uint64_t> s_counter{0};
+      return ++s_counter;
+    }
+
+    const std::uint64_t m_id = next_id();
+
     /// todo: is it valid to make this noexcept? The allocation could fail, but if it
     /// does there is no possible way to recover
-    static std::unordered_map<const void *, T> &t() noexcept {
-      static thread_local std::unordered_map<const void *, T> my_t;
+    static std::unordered_map<std::uint64_t, T> &t() noexcept {
+      static thread_local std::unordered_map<std::uint64_t, T> my_t;
       return my_t;
     }
   };
